@@ -561,6 +561,8 @@ func (c *cluster) step(st string) bool {
 		ok = c.stepDeleteShard(atoi(f[1]), f[0] == "dsfail")
 	case "cu", "cufail":
 		ok = c.stepCatchupNewTerm(atoi(f[1]), f[0] == "cufail")
+	case "cuwait":
+		ok = c.stepCatchupWait(atoi(f[1]))
 	case "af", "affail":
 		ok = c.stepAddFollower(f[0] == "affail")
 	case "tr", "trfail":
@@ -624,6 +626,7 @@ func (c *cluster) step(st string) bool {
 	c.settle()
 	c.afterCoordinator()
 	c.purgeDeadQueues()
+	c.checkCoordinatorRequests()
 	if c.unreal == "" {
 		c.checkpoints(false)
 		c.mon.afterStep()
@@ -1019,6 +1022,11 @@ func (c *cluster) stepBecomeLeaderX(fail, lose, crash bool) bool {
 			fs = append(fs, x.id)
 			resps[x.id] = el.resp[x.id]
 			startAck[x.id] = h.Offset
+			if !contains(el.ens, x.id) {
+				c.violate("attach:follower-not-in-ensemble", fmt.Sprintf(
+					"the BecomeLeader request of term %d to node %d names node %d as a follower; the ensemble of that term is %s (removed: %s)",
+					el.term, n.id, x.id, intsTok(el.ens), intsTok(el.removed)))
+			}
 		}
 	}
 	sort.Ints(fs)
@@ -1315,8 +1323,84 @@ func (c *cluster) findCatchup(f int) *catchup {
 	return nil
 }
 
+// ensembleOfTerm: the ensemble the coordinator is installing (or has installed) for the term.
+func (c *cluster) ensembleOfTerm(term int64) []int {
+	if c.el != nil && c.el.term == term {
+		return c.el.ens
+	}
+	return c.ids(c.lastMeta.Ensemble)
+}
+
+// checkCoordinatorRequests: every AddFollower request the coordinator sends names a member of the shard's ensemble (a
+// leader attaches whoever it is told to attach, up to rf-1 followers, and counts its acks for the quorum).
+func (c *cluster) checkCoordinatorRequests() {
+	c.mu.Lock()
+	var gs []*gate
+	for _, g := range c.gates {
+		if g.from == 0 && g.kind == "addfollower" && !g.checked && g.fromInc == c.coordInc {
+			g.checked = true
+			gs = append(gs, g)
+		}
+	}
+	c.mu.Unlock()
+	for _, g := range gs {
+		req := g.req.(*proto.AddFollowerRequest)
+		fn := c.nodeByName(req.FollowerName)
+		if fn == nil {
+			continue
+		}
+		ens := c.ensembleOfTerm(req.Term)
+		if !contains(ens, fn.id) {
+			c.violate("attach:follower-not-in-ensemble", fmt.Sprintf(
+				"the coordinator sends AddFollower(follower %d, term %d, head (%d,%d)) to leader %d; the ensemble of the shard is %s (stored: term %d, status %v, removed %s): node %d is not a member; a leader that attaches it gives it one of the rf-1 follower slots (a real member is then refused) and counts its acknowledgements for the quorum",
+				fn.id, req.Term, req.FollowerHeadEntryId.Term, req.FollowerHeadEntryId.Offset, g.to, intsTok(ens), c.lastMeta.Term, c.lastMeta.Status, intsTok(c.ids(c.lastMeta.RemovedNodes)), fn.id))
+		}
+	}
+}
+
+// strayCatchup: a NewTerm request of the current term to a node for which no catch-up loop of the current election
+// exists (the election is over): a retry loop left over from an older election.  It is followed like a catch-up loop.
+func (c *cluster) strayCatchup(f int) *catchup {
+	if c.el == nil || c.el.phase != "idle" || f == c.el.leader || c.findCatchup(f) != nil {
+		return nil
+	}
+	if _, isFollower := c.el.followers[f]; isFollower && contains(c.el.ens, f) {
+		return nil
+	}
+	term := c.el.term
+	if c.findGate(func(g *gate) bool { return g.kind == "newterm" && g.to == f && g.term == term && g.fromInc == c.coordInc }) == nil {
+		return nil
+	}
+	cu := &catchup{f: f, term: term, alive: true, stage: "newterm", stray: true}
+	c.catchups = append(c.catchups, cu)
+	c.event("a NewTerm request of term %d to node %d arrives outside any election and any catch-up loop of the current election (ensemble %s)", term, f, intsTok(c.el.ens))
+	c.stats["stray-fencing-retries"]++
+	return cu
+}
+
+// stepCatchupWait: like cu, after giving a left-over retry loop the time of its back-off to show up (bounded).
+func (c *cluster) stepCatchupWait(f int) bool {
+	if c.el == nil || c.el.phase != "idle" {
+		return false
+	}
+	if c.findCatchup(f) == nil {
+		term := c.el.term
+		deadline := time.Now().Add(strayWait)
+		for time.Now().Before(deadline) {
+			if c.findGate(func(g *gate) bool { return g.kind == "newterm" && g.to == f && g.term == term && g.fromInc == c.coordInc }) != nil {
+				break
+			}
+			time.Sleep(5 * time.Millisecond)
+		}
+	}
+	return c.stepCatchupNewTerm(f, false)
+}
+
 func (c *cluster) stepCatchupNewTerm(f int, fail bool) bool {
 	cu := c.findCatchup(f)
+	if cu == nil {
+		cu = c.strayCatchup(f)
+	}
 	if cu == nil || c.el == nil || c.el.phase != "idle" || c.el.term != cu.term {
 		return false
 	}
@@ -1376,6 +1460,7 @@ func (c *cluster) stepCatchupNewTerm(f int, fail bool) bool {
 	c.waitFor("AddFollower request", shortWait, func() bool {
 		return c.findGate(func(g *gate) bool { return g.kind == "addfollower" && g.fromInc == c.coordInc }) != nil
 	})
+	c.checkCoordinatorRequests()
 	return true
 }
 
@@ -2026,6 +2111,10 @@ func (c *cluster) coordIdle() bool {
 
 func (c *cluster) stepNodeFailure(id int) bool {
 	n := c.node(id)
+	if n != nil && c.scripted && c.swapInFlight && c.el != nil && c.el.phase == "idle" {
+		// scripted schedules: SwapNode returns by itself once the new member has caught up (it polls with a back-off)
+		c.waitFor("SwapNode to return", shortWait, func() bool { return !c.swapRunning() })
+	}
 	if n == nil || !c.coordIdle() {
 		return false
 	}
